@@ -134,7 +134,12 @@ def units(tier):
         if not any(o.status == FAILED for o in r.obligations):
             U.must_fail_twin(r, "vacuity.must_fail_twin", lambda: unit_units(twin=True))
         return r
-    return [("C15.convert_units.unit_table", g)]
+    us = [("C15.convert_units.unit_table", g)]
+    from props import c15_solution as SO
+    from props.common import wrap as _wrap
+    _wrap(us, "C15.Solution.add.amounts_add_state_variables_average", SO.unit_solution_add)
+    _wrap(us, "C15.Solution.multiply.scales_amounts_only", SO.unit_solution_multiply)
+    return us
 
 
 def run(tier, seed, only, jobs):
